@@ -18,8 +18,20 @@
      streamable HTTP handler (in process), in testing/synctest bubbles.
   4. The TLA+ monitor spec/LifecycleMon.tla (TLC over obs.ndjson) tracks the phase from messages and replies
      and judges the clauses (verdict); equality with Lifecycle!Step is only "drift".
+  5. Handlers with a DURATION (spec/LifecycleRun.tla, LifecycleRunMC.tla): a script is a sequence of events
+     send(letter, held) / release(n) - a message may be delivered while the handler of an earlier call or notification is
+     still running (parked on a gate).  TLC enumerates every script (phase prefix x parked message x what is sent
+     meanwhile x releases), checks PingAlwaysServed at every quiescence and the clauses of Lifecycle on the settled
+     observations, shows that a feature call that held the dispatch queue would break the clause (what-if configs),
+     and exports the scripts; harness/mcp/c06_run_test.go replays them on a real server whose tool / prompt /
+     completion / notification handlers park under testing/synctest; spec/LifecycleRunMon.tla judges.
+  6. The HTTP decision table (spec/LifecycleHttp.tla): ONE POST on a stateful handler without session id / on an
+     initialized legacy session / on a stateless handler x Mcp-Protocol-Version header class x class of the body's
+     per-request _meta x method - header and body crossed.  TLC checks HHolds(c, HExpected(c)) for all cases, a
+     header-only what-if must break it, the cases are exported; harness/mcp/c06_http_test.go runs them in process;
+     spec/LifecycleHttpMon.tla judges (verdict: the clauses; drift: equality with HExpected, incl. sessions left behind).
 """
-import json, os, random
+import json, os, random, threading
 from collections import deque
 import vlib, graphwalk
 
@@ -30,7 +42,9 @@ CLAUSES = ["GateBeforeInit", "DuplicateInitRejected", "PrematureInitializedRejec
            "PingAlways", "ModernServedIffMetaComplete", "RemovedMethodsNotFound"]
 PROBES = [{"m": "tools/list", "mt": "none", "ip": "na", "sp": "plain", "mk": "exact"},
           {"m": "notifications/initialized", "mt": "none", "ip": "na", "sp": "plain", "mk": "exact"}]
-HARNESS = ["mcp/c06_lifecycle_test.go"]
+HARNESS = ["mcp/c06_lifecycle_test.go", "mcp/c06_run_test.go", "mcp/c06_http_test.go"]
+GO_RUN = "^TestVerif_C06(Run|Http)?$"     # the three tests share one test binary; Run / Http skip without their own VERIF_*_RUN / _HTTP
+HTTP_CLAUSES = ["HModernOnlyIfGood", "HModernRefusalCode", "HGateBeforeInit", "HPingAlways", "HRemovedNotFound"]
 
 
 def msg_name(l):
@@ -113,13 +127,20 @@ def printed_seqs(res):
     return [p["seq"] for p in res.printed if isinstance(p, dict) and "seq" in p]
 
 
-def apalache_inductive_lifecycle():
-    """vlib.run_apalache_inductive on spec/LifecycleInd.tla.  Apalache sees a scratch copy of spec/ in which (a) the
-    CommunityModules module Json (not typable by Apalache; used only by the Export* operators) is replaced by the typed
-    stub spec/apalache_stubs/Json.tla and (b) the two constant-level ASSUMEs of Lifecycle.tla about the alphabet (833
-    letters x three readings; TLC evaluates them on every run, Apalache needs > 10 min for them) are dropped.  Init,
-    Next (the actions) and the invariant are untouched."""
-    import re, shutil
+def apalache_inductive_lifecycle(timeout=600):
+    """The two Apalache runs of vlib.run_apalache_inductive (same result dict) on spec/LifecycleInd.tla, in a scratch copy
+    of spec/ in which (a) the CommunityModules module Json (not typable by Apalache; used only by the Export* operators)
+    is replaced by the typed stub spec/apalache_stubs/Json.tla and (b) the two constant-level ASSUMEs of Lifecycle.tla
+    about the alphabet (833 letters x three readings; TLC evaluates them on every run, Apalache needs > 10 min for them)
+    are dropped.  Init, Next (the actions) and the invariant are untouched.  Does not touch vlib.SPEC (other model runs
+    of this check go on in background threads).  Base ~40 s + step ~85 s on an idle machine: OPT-IN (thorough tier with
+    VERIF_APALACHE_LIFECYCLE=1), see run()."""
+    import re, shutil, subprocess, time
+    res = {"module": "LifecycleInd", "invariant": "IndInv", "instance": "CInit", "status": "unavailable", "wall_s": 0.0}
+    exe = shutil.which("apalache-mc")
+    if not exe:
+        res["detail"] = "apalache-mc not on PATH"
+        return res
     d = vlib.scratch("apaspec-")
     for f in os.listdir(vlib.SPEC):
         if f.endswith(".tla"):
@@ -133,12 +154,211 @@ def apalache_inductive_lifecycle():
     if n != 2:
         raise vlib.MachineryError("Lifecycle.tla: expected 2 ASSUMEs about the alphabet, found %d" % n)
     open(lp, "w").write(txt)
-    old = vlib.SPEC
-    vlib.SPEC = d
-    try:
-        return vlib.run_apalache_inductive("LifecycleInd", "CInit", "IndInit", "IndInv", timeout=600)
-    finally:
-        vlib.SPEC = old
+    env = dict(os.environ, TMPDIR=d)     # the launcher's mktemp -d SANY* lands in the scratch dir, which is removed
+    t0 = time.time()
+    for name, ini, length in (("base", "Init", 0), ("step", "IndInit", 1)):
+        cmd = [exe, "check", "--out-dir=" + os.path.join(d, "out"), "--cinit=CInit", "--init=" + ini, "--inv=IndInv",
+               "--length=%d" % length, "LifecycleInd.tla"]
+        try:
+            p = subprocess.run(cmd, cwd=d, env=env, stdout=subprocess.PIPE, stderr=subprocess.STDOUT, timeout=timeout,
+                               text=True, errors="replace")
+        except subprocess.TimeoutExpired:
+            res["detail"] = "%s: timeout after %ds" % (name, timeout)
+            res["wall_s"] = round(time.time() - t0, 2)
+            return res
+        out = p.stdout
+        if "The outcome is: NoError" in out:
+            continue
+        res["wall_s"] = round(time.time() - t0, 2)
+        if "The outcome is: Error" in out and "violated" in out:
+            res["status"] = "refuted"
+            res["detail"] = "%s case: %s" % (name, " ".join(l.strip() for l in out.splitlines() if "violated" in l)[:300])
+        else:
+            res["detail"] = "%s case: tool error: %s" % (name, out[-300:])
+        return res
+    res["status"] = "proved"
+    res["wall_s"] = round(time.time() - t0, 2)
+    return res
+
+
+# ---------------------------------------------------------------------------------------------------------------------
+# handlers with a duration (LifecycleRun) and the HTTP decision table (LifecycleHttp)
+
+RUN_GEN = {"quick": ["LifecycleRun_gen3.cfg"], "thorough": ["LifecycleRun_gen3w.cfg", "LifecycleRun_gen4.cfg"]}
+RUN_WHATIF = {"quick": ["LifecycleRun_whatif1.cfg"], "thorough": ["LifecycleRun_whatif1.cfg", "LifecycleRun_whatif2.cfg"]}
+RUN_WIT = {"quick": [], "thorough": [("LifecycleRun_wit1.cfg", "NoPingBesideCall"), ("LifecycleRun_wit2.cfg", "NoPingExcused")]}
+
+
+class Bg(threading.Thread):
+    """A model job that runs beside the others (TLC spends most of its wall time starting up)."""
+
+    def __init__(self, fn):
+        super().__init__(daemon=True)
+        self.fn, self.res, self.exc = fn, None, None
+        self.start()
+
+    def run(self):
+        try:
+            self.res = self.fn()
+        except BaseException as e:   # re-raised by get()
+            self.exc = e
+
+    def get(self):
+        self.join()
+        if self.exc is not None:
+            raise self.exc
+        return self.res
+
+
+def run_models(tier, seed):
+    """TLC on the run model: design check + export of every script, what-ifs (must be violated), witnesses."""
+    runs, scripts = [], []
+    for cfg in RUN_GEN[tier]:
+        res = vlib.run_tlc("LifecycleRunMC", cfg, workers=2, timeout=900, heap_gb=3)
+        vlib.tlc_must_pass(res, cfg)
+        if not res.ok:
+            raise vlib.MachineryError("the LifecycleRun model violates %s: design check failed\n%s" % (res.violation, res.stdout[-1500:]))
+        got = [p for p in res.printed if isinstance(p, dict) and "run" in p]
+        if not got:
+            raise vlib.MachineryError("%s exported no script" % cfg)
+        runs.append((cfg + " (PingAlwaysServed at every quiescence, the clauses on the settled observations; scripts exported)", res))
+        scripts += got
+    for cfg in RUN_WHATIF[tier]:
+        res = vlib.run_tlc("LifecycleRunMC", cfg, workers=1, timeout=600, heap_gb=2)
+        if res.violation != "InvPingAlwaysServed":
+            raise vlib.MachineryError("%s: a feature call that holds the dispatch queue does not break PingAlwaysServed (%s)" % (
+                cfg, res.error or res.violation or "no violation"))
+        runs.append((cfg + " (what-if: a parked feature call holds the queue; must be violated)", res))
+    for cfg, inv in RUN_WIT[tier]:
+        res = vlib.run_tlc("LifecycleRunMC", cfg, workers=1, timeout=600, heap_gb=2)
+        if res.violation != inv:
+            raise vlib.MachineryError("%s: no witness (%s)" % (cfg, res.error or res.violation))
+        runs.append((cfg + " (witness, must be violated)", res))
+    # distinct scripts (gen3w and gen4 overlap), one raw transport each
+    seen, out = set(), []
+    for p in scripts:
+        k = json.dumps(p["run"], sort_keys=True)
+        if k in seen:
+            continue
+        seen.add(k)
+        i = len(out)
+        out.append({"id": "g%d" % i, "tr": "io" if (i + seed) % 2 == 0 else "mem", "phase": p["phase"], "run": p["run"]})
+    return runs, out
+
+
+def http_model():
+    wd = vlib.scratch("tlc-")
+    res = vlib.run_tlc("LifecycleHttpMC", "LifecycleHttpMC.cfg", workdir=wd, workers=1, timeout=600, heap_gb=2)
+    vlib.tlc_must_pass(res, "LifecycleHttpMC")
+    if not res.ok:
+        raise vlib.MachineryError("LifecycleHttp design check failed: " + (res.violation or res.stdout[-2000:]))
+    cases = vlib.read_ndjson(os.path.join(wd, "httpcases.ndjson"))
+    head = [p for p in res.printed if isinstance(p, dict) and "httpcases" in p]
+    if not head or head[0]["httpcases"] != len(cases) or not cases:
+        raise vlib.MachineryError("LifecycleHttp exported %d cases, header %s" % (len(cases), head))
+    return res, cases
+
+
+def ev_name(ev):
+    if ev["k"] == "release":
+        return "release(#%d)" % ev["n"]
+    return msg_name(ev["l"]) + ("[held]" if ev["held"] else "")
+
+
+def mobs_name(m):
+    return got_name({"reply": m["reply"], "code": m["code"], "nlist": m["nlist"], "h": m["h"]})
+
+
+def judge_run(v, out, scripts, obs, hseed, mon):
+    """LifecycleRunMon (mon: its run, started beside the main monitor) over the observation lines of the run scripts."""
+    rows = vlib.read_ndjson(obs)
+    nev = sum(len(s["run"]) for s in scripts)
+    if len(rows) != nev:
+        raise vlib.MachineryError("run harness recorded %d of %d events" % (len(rows), nev))
+    fails, mres = mon.get()
+    v.add_tlc("LifecycleRunMon", mres)
+    by_id = {s["id"]: s for s in scripts}
+    counts = [p["runcounts"] for p in mres.printed if isinstance(p, dict) and "runcounts" in p]
+    reps, drift = {}, {}
+    for f in fails:
+        e = rows[f["line"] - 1]
+        sq = by_id[e["seq"]]
+        upto = sq["run"][: e["e"]]
+        if f["monfail"] == "drift":
+            k = "run script [%s] over %s: the exchange differs from the LifecycleRun machine after event %d" % (
+                " ; ".join(ev_name(x) for x in upto), e["tr"], e["e"])
+            drift.setdefault(k, 0)
+            drift[k] += 1
+            continue
+        if f["monfail"] == "PingAlwaysServed":
+            released = {x["n"] for x in upto if x["k"] == "release"}
+            running = [x for x in upto if x["k"] == "send" and x["n"] in e["ent"] and x["n"] not in released]
+            sig = "pingwait:prefix=%s:running=%s" % (sq["phase"], ",".join(sorted({msg_name(x["l"]) for x in running})) or "nothing")
+            desc = ("real server violates PingAlwaysServed over %s: script [%s]: after event %d the ping sent as message %d has no answer "
+                    "although no notification / initialize handler entered before it is running (running handlers: %s)" % (
+                        e["tr"], " ; ".join(ev_name(x) for x in upto), e["e"], f.get("msg", 0),
+                        ", ".join("#%d %s" % (x["n"], msg_name(x["l"])) for x in running) or "none"))
+        elif f["monfail"] == "OneReply":
+            sig = "run:reply:dup:%s" % ev_name(sq["run"][e["e"] - 1])
+            desc = "real server answers one id more than once: script [%s] over %s" % (" ; ".join(ev_name(x) for x in upto), e["tr"])
+        else:
+            i = f["msg"]
+            sends = [x for x in sq["run"] if x["k"] == "send"]
+            ml, mo = sends[i - 1]["l"], e["ms"][i - 1]
+            sig = "run:prefix=%s:phase=%s:%s:%s:%s" % (sq["phase"], f.get("phase", "?"), msg_name(ml), mobs_name(mo), f["monfail"])
+            desc = "real server violates %s (settled observation of message %d: %s got %s) over %s: script [%s]" % (
+                f["monfail"], i, msg_name(ml), mobs_name(mo), e["tr"], " ; ".join(ev_name(x) for x in sq["run"]))
+        cur = reps.get(sig)
+        if cur is None or (len(sq["run"]), e["e"]) < (len(cur[0]["run"]), cur[1]["e"]):
+            reps[sig] = (sq, e, f, desc)
+    for k, n in sorted(drift.items(), key=lambda kv: -kv[1])[:8]:
+        v.drift.append("%s (%d lines)" % (k, n))
+    if len(drift) > 8:
+        v.drift.append("run scripts: %d further scripts differ from the LifecycleRun machine" % (len(drift) - 8))
+    for sig, (sq, e, f, desc) in sorted(reps.items()):
+        sent = [r for r in rows if r["seq"] == sq["id"] and r["e"] <= e["e"]]
+        desc += " | " + " ; ".join("%s -> %s" % (r["raw"] or "release #%d" % r["n"], r["out"] or "(no answer)") for r in sent)[:900]
+        v.violation(sig, desc, {"kind": "run", "id": sq["id"], "tr": sq["tr"], "phase": sq["phase"], "run": sq["run"], "seed": hseed,
+                                "clause": f["monfail"], "event": e["e"], "observed": e["ms"]})
+    return rows, (counts[0] if counts else {})
+
+
+def judge_http(v, out, cases, obs, hseed, mon):
+    """LifecycleHttpMon (mon: its run) over the outcomes of the HTTP decision table."""
+    rows = vlib.read_ndjson(obs)
+    fails, mres = mon.get()
+    v.add_tlc("LifecycleHttpMon", mres)
+    prem = {}
+    for p in mres.printed:
+        if isinstance(p, dict) and "premises" in p:
+            prem = p["premises"]
+    seen = set()
+    drift = {}
+    for f in fails:
+        e = rows[f["line"] - 1]
+        c, o = e["c"], e["o"]
+        l = {"m": c["m"], "mt": c["bv"], "ip": "legacy", "sp": "plain", "mk": "exact"}
+        got = got_name(o) + ("" if f["monfail"] != "drift" else " nsess=%d%s" % (o["nsess"], " lists-2026-07-28" if o["lmod"] else ""))
+        what = "%s:hdr=%s:%s:%s" % (c["ep"], c["hv"], msg_name(l), got)
+        if f["monfail"] == "drift":
+            k = "http case %s (HTTP %d): differs from LifecycleHttp!HExpected" % (what, e["status"])
+            drift[k] = drift.get(k, 0) + 1
+            continue
+        sig = "http:%s:%s" % (what, f["monfail"])
+        if sig in seen:
+            continue
+        seen.add(sig)
+        v.violation(sig, "real streamable HTTP handler violates %s: endpoint %s, Mcp-Protocol-Version %s, body %s -> HTTP %d %s, handlers %s, "
+                         "%d session(s) left | sent %s | received %s" % (
+                             f["monfail"], c["ep"], repr(e["hdrver"]) if e["hdrver"] else "absent", msg_name(l), e["status"], got_name(o),
+                             o["h"], o["nsess"], e["raw"], e["out"] or "(nothing)"),
+                    {"kind": "http", "case": c, "seed": hseed, "clause": f["monfail"], "observed": o, "sent": e["raw"],
+                     "header": e["hdrver"], "received": e["out"]})
+    for k, n in sorted(drift.items(), key=lambda kv: -kv[1])[:8]:
+        v.drift.append("%s (%d lines)" % (k, n))
+    if len(drift) > 8:
+        v.drift.append("http table: %d further cases differ from LifecycleHttp!HExpected" % (len(drift) - 8))
+    return rows, prem
 
 
 def run(tier, seed, replay):
@@ -168,6 +388,20 @@ def run(tier, seed, replay):
         "subscriptions/listen (parks until cancelled) and batches are not in the alphabet; over HTTP no _meta naming "
         "a legacy version is sent (the stateful transport refuses any _meta protocolVersion before the session sees it)",
         "TLC exhaustive results: the full (joint state x letter) table; all core-letter sequences up to the stated length",
+        "handlers with a duration (LifecycleRun): 'ping is always served' is read for every phase of a session - also while "
+        "the first call of a fresh session, carrying complete 2026-07-28 metadata, is still in flight: a legacy ping that has "
+        "been delivered on a healthy connection is answered by the next quiescence without waiting for any running feature-call "
+        "handler.  Excused are exactly the pings delivered while a notification (or initialize) handler that was entered earlier "
+        "is still running, for as long as it runs: C03 demands that such a handler finishes before later messages are handled.  "
+        "Parked are the tool, prompt, completion handlers and the progress / roots-changed / initialized notification handlers; "
+        "initialize itself has no user handler to park; at most one message is delivered while a notification handler holds "
+        "the queue (the InitializeParams snapshot between two messages let go together is not observable); raw transports only",
+        "the HTTP decision table (LifecycleHttp): 'served only if the metadata is complete and names a supported version' is "
+        "demanded whatever the Mcp-Protocol-Version header says; the refusal CODE of the property (-32602 / -32022 with a list) "
+        "and 'ping is served' are demanded when header and body tell the same story (2026-07-28-or-later metadata under the "
+        "header naming the same version; no such metadata under an absent or supported legacy header) - when they contradict "
+        "each other the property does not say which defect is reported.  'No session is left registered by a refused request' "
+        "is NOT in the property: it is part of the code-shaped HExpected (drift) only",
     ]
     out = vlib.outdir(PID)
     rnd = random.Random(seed)
@@ -176,13 +410,22 @@ def run(tier, seed, replay):
     model_leads = []
     seqs = []  # {"id","tr","seq"}
     counts = {}
+    run_scripts, http_cases = [], []    # LifecycleRun scripts / LifecycleHttp cases to run on the real code
     if replay:
         rep = json.load(open(replay))["replay"]
-        seqs = [{"id": rep.get("id", "replay"), "tr": rep["tr"],
-                 "seq": [dict(l, sp=l.get("sp", "plain"), mk=l.get("mk", "exact")) for l in rep["seq"]]}]
         hseed = rep.get("seed", seed)
+        if rep.get("kind") == "run":
+            run_scripts = [{"id": rep.get("id", "replay"), "tr": rep["tr"], "phase": rep.get("phase", "?"), "run": rep["run"]}]
+        elif rep.get("kind") == "http":
+            http_cases = [dict(rep["case"])]
+        else:
+            seqs = [{"id": rep.get("id", "replay"), "tr": rep["tr"],
+                     "seq": [dict(l, sp=l.get("sp", "plain"), mk=l.get("mk", "exact")) for l in rep["seq"]]}]
     else:
         hseed = seed
+        # 0. the run model and the HTTP table are checked beside the other model runs
+        bg_run = Bg(lambda: run_models(tier, seed))
+        bg_http = Bg(http_model)
         # 1. the (phase x message) table: design check on every row + graph dump
         wd = vlib.scratch("tlc-")
         dot = os.path.join(wd, "table.dot")
@@ -207,8 +450,9 @@ def run(tier, seed, replay):
 
         # 1b. unbounded in the number of messages: Apalache discharges the inductive invariant of the joint machine
         # (LifecycleInd.tla: the 19 rows of the table as three implications + "the last step broke no clause") over the
-        # FULL alphabet, without TLC's VIEW.  ~2 min: thorough tier only.
-        if tier == "thorough":
+        # FULL alphabet, without TLC's VIEW.  ~2 min on an idle machine (more than the budget under load): opt-in,
+        # thorough tier with VERIF_APALACHE_LIFECYCLE=1.
+        if tier == "thorough" and os.environ.get("VERIF_APALACHE_LIFECYCLE") == "1":
             ra = apalache_inductive_lifecycle()
             v.cov.setdefault("apalache_inductive", []).append(ra)
             if ra["status"] == "refuted":
@@ -276,34 +520,59 @@ def run(tier, seed, replay):
             if no_legacy_meta(s):
                 seqs.append({"id": "hr%d" % i, "tr": "http", "seq": s})
 
+        # 5b. the scripts with parked handlers, the HTTP decision table
+        rruns, run_scripts = bg_run.get()
+        for name, res in rruns:
+            v.add_tlc(name, res)
+        hres, http_cases = bg_http.get()
+        v.add_tlc("LifecycleHttpMC (HHolds(c, HExpected(c)) for every case; header-only what-if refuted; cases exported)", hres)
+        counts.update(run_scripts=len(run_scripts), run_events=sum(len(s["run"]) for s in run_scripts),
+                      run_scripts_by_prefix={k: sum(1 for s in run_scripts if s["phase"] == k) for k in sorted({s["phase"] for s in run_scripts})},
+                      http_cases=len(http_cases))
+
     inp = os.path.join(out, "sequences.ndjson")
     vlib.write_ndjson(inp, seqs)
+    rinp, robs_run = os.path.join(out, "run_scripts.ndjson"), os.path.join(out, "run_obs.ndjson")
+    hinp, hobs = os.path.join(out, "http_cases.ndjson"), os.path.join(out, "http_obs.ndjson")
+    vlib.write_ndjson(rinp, run_scripts)
+    vlib.write_ndjson(hinp, http_cases)
     by_id = {s["id"]: s for s in seqs}
     nmsgs = sum(len(s["seq"]) for s in seqs)
 
     # 6. replay on the real code
     obs = os.path.join(out, "obs.ndjson")
-    for f in (obs, obs + ".progress"):
+    for f in (obs, obs + ".progress", robs_run, robs_run + ".progress", hobs):
         if os.path.exists(f):
             os.remove(f)
     env = {"VERIF_IN": inp, "VERIF_OUT": obs, "VERIF_SEED": hseed, "VERIF_TIER": tier,
            "VERIF_SHARDS": 1 if replay else GO_SHARDS}
     if replay:
         env["VERIF_RAW"] = 1
-    rc, gout, wall = vlib.go_test("mcp", "^TestVerif_C06$", HARNESS, timeout=1500, env=env)
+    if run_scripts:
+        env.update(VERIF_IN_RUN=rinp, VERIF_OUT_RUN=robs_run)
+    if http_cases:
+        env.update(VERIF_IN_HTTP=hinp, VERIF_OUT_HTTP=hobs, VERIF_REPS=1 if (tier == "quick" or replay) else 3)
+    rc, gout, wall = vlib.go_test("mcp", GO_RUN, HARNESS, timeout=1500, env=env)
     vlib.go_must_build(rc, gout, PID)
     if rc != 0 and env["VERIF_SHARDS"] != 1:
         # the shards replay independent sequences side by side; one at a time tells which sequence was in flight
         env["VERIF_SHARDS"] = 1
-        rc, gout, wall = vlib.go_test("mcp", "^TestVerif_C06$", HARNESS, timeout=1500, env=env)
+        rc, gout, wall = vlib.go_test("mcp", GO_RUN, HARNESS, timeout=1500, env=env)
     if rc != 0:
         inflight = ""
         try:
             inflight = open(obs + ".progress").read().strip()
         except Exception:
             pass
+        if "TestVerif_C06Run" in gout and "FAIL: TestVerif_C06Run" in gout:
+            try:
+                inflight = open(robs_run + ".progress").read().strip()
+            except Exception:
+                pass
         if "panic:" in gout and "blocked goroutines remain" not in gout and "deadlock:" not in gout:
             sq = json.loads(inflight) if inflight else {}
+            if "run" in sq:    # a script of LifecycleRun was in flight
+                sq["seq"] = [x["l"] for x in sq["run"] if x["k"] == "send"]
             v.violation("panic:%s" % "|".join(msg_name(l) for l in sq.get("seq", [])[:6]),
                         "Go panic while replaying sequence %s" % inflight[:300],
                         dict(sq, seed=hseed, output=gout[-3000:]))
@@ -314,6 +583,9 @@ def run(tier, seed, replay):
         raise vlib.MachineryError("harness recorded %d of %d messages" % (len(rows), nmsgs))
 
     # 7. the monitor: verdict (clauses), drift (equality with Step), notes, premise counts
+    # (the two small monitors of the run scripts and of the HTTP table run beside it)
+    mon_run = Bg(lambda: vlib.run_monitor("LifecycleRunMon", "LifecycleRunMon.cfg", robs_run, timeout=1200, heap_gb=6)) if run_scripts else None
+    mon_http = Bg(lambda: vlib.run_monitor("LifecycleHttpMon", "LifecycleHttpMon.cfg", hobs, timeout=900, heap_gb=4)) if http_cases else None
     fails, notes, prem = [], 0, {c: 0 for c in CLAUSES}
     CH = 250000
     starts = list(range(0, len(rows), CH))
@@ -351,7 +623,9 @@ def run(tier, seed, replay):
     v.cov["rule"] = ("sequences generated by TLC from Lifecycle.tla: every cell of the (joint state x letter) table behind "
                      "a shortest prefix and followed by two probes, transition-cover walks of the table graph, every core "
                      "sequence of the bounded length, seeded simulations of length 8; distinct by letter sequence; "
-                     "non-trivial = contains an initialize or a message with per-request _meta")
+                     "non-trivial = contains an initialize or a message with per-request _meta.  Plus (counted in "
+                     "traces_validated / evaluations, not in distinct_nontrivial): every script of LifecycleRunMC (phase prefix, "
+                     "a parked message, what is sent while it runs, releases) and every case of the LifecycleHttp table")
     v.cov["exhaustive"] = not replay
     v.cov.update(counts)
     v.cov["messages_by_transport"] = {}
@@ -368,6 +642,24 @@ def run(tier, seed, replay):
         got = [r for r in rows if r["seq"] == s["id"]][:4] if len(rows) < 400000 else []
         v.sample({"id": s["id"], "tr": s["tr"], "msgs": [msg_name(l) for l in s["seq"]][:8],
                   "got": [got_name(r["o"]) for r in got]})
+
+    # 7b. handlers with a duration; the HTTP decision table
+    if run_scripts:
+        rrows, rcounts = judge_run(v, out, run_scripts, robs_run, hseed, mon_run)
+        v.cov["traces_validated_against_impl"] += len(run_scripts)
+        v.cov["evaluations"] += len(rrows)
+        v.cov["run_quiescences_where_ping_clause_speaks"] = rcounts.get("prem", 0)
+        v.cov["run_pings_delivered_beside_a_running_feature_call"] = rcounts.get("beside", 0)
+        v.cov["run_pings_excused_by_a_running_notification_handler"] = rcounts.get("excused", 0)
+        if not replay and not (rcounts.get("beside") and rcounts.get("excused") and rcounts.get("prem")):
+            raise vlib.MachineryError("vacuity on the real run (parked handlers): %s" % rcounts)
+    if http_cases:
+        hrows, hprem = judge_http(v, out, http_cases, hobs, hseed, mon_http)
+        v.cov["traces_validated_against_impl"] += len(hrows)
+        v.cov["evaluations"] += len(hrows)
+        v.cov["http_clause_premises_on_real_code"] = hprem
+        if not replay and [c for c in HTTP_CLAUSES if not hprem.get(c)]:
+            raise vlib.MachineryError("vacuity on the real run (HTTP table): %s" % hprem)
 
     # 8. classify
     reps = {}   # sig -> (seq, n, fail, line)
